@@ -7,6 +7,8 @@ package sim
 
 import (
 	"errors"
+	"runtime"
+	"strings"
 	"sync"
 
 	mwdb "massnet.org/mass-wallet/masswallet/db"
@@ -35,6 +37,7 @@ type SimDB struct {
 	// crash plan: after the CrashAtCommit-th successful commit the instance dies.
 	CrashAtCommit int
 	Closed        bool
+	FirstSite     string // wallet functions on the stack of the first failed call
 	// OnCommit is called after every successful commit (invariant monitors).
 	OnCommit func(n int)
 }
@@ -57,6 +60,9 @@ func (d *SimDB) fault(kind string) bool {
 	if d.FailAt > 0 && (d.Calls == d.FailAt || (d.Sticky && d.Calls > d.FailAt)) {
 		d.Fired++
 		d.FiredKinds[kind]++
+		if d.FirstSite == "" {
+			d.FirstSite = callSite()
+		}
 		return true
 	}
 	return false
@@ -301,3 +307,29 @@ func (i *simIter) Next() bool {
 }
 func (i *simIter) Key() []byte   { return i.it.Key() }
 func (i *simIter) Value() []byte { return i.it.Value() }
+
+// callSite returns the innermost wallet-code frames of the caller (function
+// names only), used to tell injected-fault findings apart by call site.
+func callSite() string {
+	pcs := make([]uintptr, 24)
+	n := runtime.Callers(3, pcs)
+	frames := runtime.CallersFrames(pcs[:n])
+	var out []string
+	for {
+		f, more := frames.Next()
+		name := f.Function
+		if strings.Contains(name, "massnet.org/mass-wallet/masswallet") && !strings.Contains(name, "/db.") {
+			if i := strings.LastIndex(name, "/"); i >= 0 {
+				name = name[i+1:]
+			}
+			out = append(out, name)
+			if len(out) >= 3 {
+				break
+			}
+		}
+		if !more {
+			break
+		}
+	}
+	return strings.Join(out, " <- ")
+}
